@@ -112,11 +112,11 @@ directive @transform(op: String!) repeatable on FIELD
         // The schema is mostly type definitions, except for one schema definition, and
         // perhaps a small number of other definitions like custom scalars or directives.
         let mut vertex_types: HashMap<Arc<str>, TypeDefinition> =
-            HashMap::with_capacity(doc.definitions.len() - 1);
+            HashMap::with_capacity(doc.definitions.len().saturating_sub(1));
 
         // Each type has probably at least one field.
         let mut fields: HashMap<(Arc<str>, Arc<str>), FieldDefinition> =
-            HashMap::with_capacity(doc.definitions.len() - 1);
+            HashMap::with_capacity(doc.definitions.len().saturating_sub(1));
 
         for definition in doc.definitions {
             match definition {
